@@ -239,3 +239,16 @@ Theorem C01_refuted_post_later_source :
   /\ C01.step_spec ex_cfg w_s v_s = false.
 Proof. exact C01_post_refuted_later_source. Qed.
 Print Assumptions C01_refuted_post_later_source.
+
+Theorem C01_refuted_idempotent_config_rewritten :
+  plain_env ex_env = true
+  /\ wf_cfg cfg_e = true
+  /\ nodup_paths (map fst fs_e) = true
+  /\ wf_table (ks_tab (wo_ks w_e)) = true
+  /\ v_res v_e = ROk
+  /\ length (syscalls (v_log v_e)) = 1%nat
+  /\ lmap_beq (layers_on_disk cfg_e (wo_fs (v_after v_e))) (layers_on_disk cfg_e (wo_fs w_e)) = false
+  /\ v_res v_e2 = ROk
+  /\ mount_targets (syscalls (v_log v_e2)) = [bs "/b/layers/d1/build/mnt"].
+Proof. exact C01_idempotent_refuted_config_rewritten. Qed.
+Print Assumptions C01_refuted_idempotent_config_rewritten.
